@@ -17,6 +17,10 @@ CHECKS = {
          "Exploration: 900k random graphs over 2-9 templates and 200k chains/rings of 2-32 per quick run (x10 thorough), with include edges placed at top level, in blocks, component bodies, captures, dead branches and loops, missing targets, three directories of which up to two are fallback prefixes in either order (short and full spellings, exact names shadowing prefixed ones); 16 hand-written sets incl. the F9/F10 shapes.",
          "Trusted base: the 60-line graph analysis in harness/src/props/c11.rs and the process supervisor. Termination is observed for depths <= 32 in the reference environment; with several fault classes only accepted-vs-rejected is compared.",
          "DESIGN.md section 4 C11"),
+ "C12": ("fault injection with a position oracle: exactly one fault of a known kind is planted at a recorded byte range in a generated multi-template scaffold; the reported template name, byte range, line and column are compared with the planted position and with each other (line/column recomputed from the byte offsets), the rendered Display text with the source line and with the chain of call sites; span validity on every positioned error of generated C02 expressions",
+         "Exploration: 150k render faults (50 kinds x 8 positions: parent top level and block, child block, include depths 1-3, component-call body, component definition body; includes wrapped in filter sections, set blocks or component bodies) and 75k syntax faults (30 kinds) per quick run (x20 thorough) behind generated multi-line prefixes with CRLF, tabs, combining and 4-byte characters; all kind x position combinations once without prefix; 150k generated expressions in noisy multi-line spelling (about 60% raise a positioned error).",
+         "Trusted base: the recomputation of (line, column) from a byte offset (line = newlines before + 1, column = characters since the line start) and the planted ranges. For syntax faults the position is pinned only for unknown tags, unterminated constructs, mismatched end tags and end of input; elsewhere the span must not end before the fault. Render-time limits reported without a position (recursion depth) are outside the statement.",
+         "DESIGN.md section 4 C12"),
  "C05": ("model-based differential: generated component definitions and call sites against a reference binder (declared ∪ defaults, rest map, unknown/missing/type errors, inferred types) and the reference interpreter on a fresh scope, with observation points over the caller's whole name pool inside every component body (isolation); render_component through the API against the same binder; enumeration of fallback-prefix priority configurations; crash-isolated recursion shapes on an 8 MiB stack",
          "Exploration: 240k generated sets (quick; x20 thorough) of 1-4 components over three files, called inline / with body / in loops / in captures / from an included template / from other components, with named, shorthand and spread attributes (literals of every kind, caller variables, right and wrong types, missing and extra); 1.7M render_component comparisons; 30k priority configurations; 70 recursion cases (direct, mutual, through includes, through bodies, in loops and captures; depth 0..100000 and unbounded).",
          "Trusted base: the reference binder bind_component and interpreter in harness/src/stmt.rs. Not specified and therefore discarded: undefined attribute values, explicit `body` attributes, spreads with non-string keys; duplicates at a shadowed priority are accepted or rejected by the engine depending on template-name order (not claimed either way).",
